@@ -189,9 +189,13 @@ class JsonWebSignature:
                 return rv
             raise BadSignatureError(rv)
 
+        signatures = obj["signatures"]
+        if not isinstance(signatures, list) or not signatures:
+            raise DecodeError('Invalid "signatures" value')
+
         headers = []
         is_valid = True
-        for header_obj in obj["signatures"]:
+        for header_obj in signatures:
             jws_header, valid = self._validate_json_jws(
                 payload_segment, payload, header_obj, key
             )
